@@ -302,11 +302,12 @@ def proto_base(schema):
     labels = {"nolabel"} | {"L%d%d%d" % (k, c, d) for k in range(n["EdgeType"]) for c in (0, 1) for d in (0, 1)}
     return dict(
         IRs={"i1"}, Modules={"m1", "m2"}, Sections={"s1", "s2"}, Intervals={"v1", "v2"}, CodeBlocks={"c1", "c2"},
-        DataBlocks={"d1"}, Proxies={"p1"}, Symbols={"y1", "y2", "y3"}, Exprs={"e1", "e2", "e3", "e4"},
+        DataBlocks={"d1"}, Proxies={"p1"}, Symbols={"y1", "y2", "y3"}, Exprs={"e1", "e2", "e3", "e4", "e5"},
         # two expressions of each kind, so that state shared between separately built ones shows
-        ExprKind={"e1": "ac", "e2": "aa", "e3": "ac", "e4": "aa"},
-        ExprSym={"e1": "y1", "e2": "y1", "e3": "y3", "e4": "y3"},
-        ExprSym2={"e1": "none", "e2": "y2", "e3": "none", "e4": "y3"},
+        # (e5: both operands of a SymAddrAddr are one symbol -- and it differs from e2 in the second operand only)
+        ExprKind={"e1": "ac", "e2": "aa", "e3": "ac", "e4": "aa", "e5": "aa"},
+        ExprSym={"e1": "y1", "e2": "y1", "e3": "y3", "e4": "y3", "e5": "y1"},
+        ExprSym2={"e1": "none", "e2": "y2", "e3": "none", "e4": "y3", "e5": "y1"},
         Attach0=[("m1", "i1"), ("m2", "i1"), ("s1", "m1"), ("s2", "m2"), ("v1", "s1"), ("v2", "s2"), ("c1", "v1"),
                  ("d1", "v1"), ("c2", "v2"), ("p1", "m1"), ("y1", "m1"), ("y2", "m1"), ("y3", "m2")],
         Pay0={("y1", "c1"), ("y2", "#0"), ("y3", "c2")}, Entry0={("m1", "c1")},
